@@ -31,7 +31,7 @@ Step(e) ==
     [] e.name = "DescribeLanguage"  -> DescribeLanguage(e.args[1])
     [] e.name = "ListLanguages"     -> ListLanguages
     [] e.name = "ClearLanguages"    -> ClearLanguages
-    [] e.name = "MetamodelFor"      -> MetamodelFor(e.args[1], e.args[2])
+    [] e.name = "MetamodelFor"      -> MetamodelFor(e.args[1], e.args[2], e.args[3])
     [] e.name = "LanguagesForFile"  -> LanguagesForFile(e.args[1])
     [] e.name = "LanguageForFile"   -> LanguageForFile(e.args[1])
     [] e.name = "RegisterGenerator" -> RegisterGenerator(e.args[1], e.args[2])
